@@ -9,7 +9,9 @@ Inductive tvop :=
 | TBegin (h : Z)                   (* opchild.BeginBlocker at height h *)
 | TEnd (h : Z)                     (* opchild.EndBlocker at height h; the batch goes to the engine *)
 | TRegister (r : plan_req)         (* Keeper.RegisterExecutorChangePlan *)
-| TEngine (ups : list update).     (* a batch given to the engine directly (validates engine_apply) *)
+| TEngine (ups : list update)      (* a batch given to the engine directly (validates engine_apply) *)
+| TDryBlock (h : Z).               (* BeginBlocker + EndBlocker at height h on a cache branch that is
+                                      DISCARDED (a rejected proposal, a simulation): no effect at all *)
 
 Record valcase := {
   tc_table : list (bytes * N);     (* valid account address strings -> id *)
@@ -119,6 +121,13 @@ Definition tv_step (c : valcase) (st : tvstate) (o : tvop) : tvstate * ov :=
   | TEngine ups =>
       let '(st2, acc) := feed_engine st ups in
       (st2, step_ov c "OK" (Some (ups, acc)) st2)
+  | TDryBlock h =>
+      let k := core_of (t_l2 st) in
+      match begin_block (vc_maxv k) (vc_entries k) h (vc_vs k) (t_hist st),
+            end_block_at (cfg_of c) (t_plans st) (t_l2 st) (Z.to_N h) with
+      | Some _, Some _ => (st, step_ov c "OK" None st)
+      | _, _ => err
+      end
   end.
 
 Fixpoint tv_run (c : valcase) (st : tvstate) (ops : list tvop) : list ov :=
